@@ -80,7 +80,7 @@ def generate(seed: int, tier: str, index: int) -> dict:
                            "script": script}]
     else:
         spec["world"] = {"variant": "full"}
-        spec["actors"] = [gen_inject(rng)]
+        spec["actors"] = [gen_inject(rng) if rng.random() < 0.7 else gen_inject_time(rng, spec["t0_us"])]
     return spec
 
 
@@ -411,6 +411,87 @@ def gen_inject(rng) -> dict:
     return a
 
 
+def gen_inject_time(rng, t0_us: int) -> dict:
+    """An error addressed by time of day: the manifest translates it per media type, the player then asks for
+    the segments around it with the URLs the manifest spells out."""
+    kind = rng.choice(["video", "audio"])
+    back = rng.randrange(2, 28)
+    tod = (t0_us // 1_000_000 - back) % 86400
+    return {"id": "injt", "kind": "inject_time", "prng": rng.getrandbits(32), "latency": {"min_us": 0, "jitter_us": 0},
+            "err": {"kind": kind, "code": rng.choice([404, 410, 503, 504]), "tod": tod,
+                    "manifest": rng.choice(["hand_made.mpd", "manifest_e.mpd", "manifest_n.mpd"]),
+                    "stream": rng.choice(["fza", "enc"]), "start": rng.choice(["today", "today", "epoch", "month"]),
+                    "failures": rng.choice([None, None, 1])},
+            "script": []}
+
+
+class TimeInjector(Actor):
+    """verr/aerr=<code>=<HH:MM:SS>Z on a live manifest, then the segments around the addressed instant."""
+
+    kind = "inject_time"
+
+    def __init__(self, sim, spec) -> None:
+        super().__init__(sim, spec)
+        self.err = spec["err"]
+
+    async def run(self) -> None:
+        from fractions import Fraction
+        from ..oracles import mpd as mpdlib
+        sim = self.sim
+        e = self.err
+        tod = e["tod"]
+        name = {"video": "verr", "audio": "aerr"}[e["kind"]]
+        q = {name: f"{e['code']}={tod // 3600:02d}:{tod // 60 % 60:02d}:{tod % 60:02d}Z", "start": e["start"]}
+        if e["failures"] is not None:
+            q["failures"] = str(e["failures"])
+        url = BASE + f"/dash/live/{e['stream']}/{e['manifest']}?" + urllib.parse.urlencode(q)
+        try:
+            resp = await self.get(url)
+        except NetTimeout:
+            return
+        if resp.status != 200:
+            return
+        fetched = simclock.CLOCK.us
+        try:
+            m = mpdlib.parse(resp.body, url)
+        except Exception:  # noqa: BLE001 - well-formedness is C05's subject
+            return
+        subj = f"time/{e['kind']}/code{e['code']}"
+        for period in m.periods:
+            for aset in period.asets:
+                if (aset.content_type or "video") != e["kind"] or not aset.reps:
+                    continue
+                rep = aset.reps[0]
+                tmpl = rep.template
+                if tmpl is None or not tmpl.duration or not tmpl.media or "$Number" not in tmpl.media or m.ast_us is None:
+                    continue
+                day0 = m.ast_us - m.ast_us % 86_400_000_000
+                tm = day0 + tod * 1_000_000
+                if m.tsbd is None or not (fetched - int(m.tsbd * 1_000_000) + 4_000_000 < tm < fetched) or tm < m.ast_us:
+                    sim.world.probe("c16.inject-time-outside-window")
+                    continue
+                exact = Fraction((tm - m.ast_us) * tmpl.timescale, tmpl.duration * 1_000_000)
+                if exact.denominator == 1:
+                    continue            # on a segment boundary: either neighbour may be meant
+                target = tmpl.start_number + int(exact)
+                for n in (target - 1, target, target + 1):
+                    seg_url = mpdlib.segment_url(rep, tmpl.media, number=n)
+                    try:
+                        r = await self.get(seg_url)
+                    except NetTimeout:
+                        continue
+                    sim.check("c16-inject-time")
+                    if n == target and r.status != e["code"]:
+                        sim.violate("inject-time-missed", subj,
+                                    f"segment {n} contains the addressed time but answered {r.status}; {seg_url} "
+                                    f"(manifest {url})")
+                    elif n != target and r.status not in (200, 404):
+                        sim.violate("inject-time-hit-other-request", subj,
+                                    f"segment {n} answered {r.status}, the addressed time lies in segment {target}; "
+                                    f"{seg_url} (manifest {url})")
+                break
+
+
 class Injector(Actor):
     """Requests media segments by number with an error-injection spec; judged against a reference model."""
 
@@ -514,7 +595,7 @@ def execute(spec: dict) -> dict:
         sim.after_delivery = oracle.after_delivery
         actors = []
         for a in spec["actors"]:
-            cls = {"hostile": Hostile, "storage": Storage, "inject": Injector}[a["kind"]]
+            cls = {"hostile": Hostile, "storage": Storage, "inject": Injector, "inject_time": TimeInjector}[a["kind"]]
             actors.append(cls(sim, a))
         sim.run(actors, max_steps=6_000_000)
         return base.outcome(ID, spec, sim, world, nontrivial=bool(sim.checks.get("c16-response", 0) >= 20),
